@@ -53,6 +53,9 @@ def r1(ctx):
         return
     w = where(s.body)
     loops = for_loops(s)
+    if not loops:
+        ctx.inconclusive(R, 'len() is not written as a loop over the entries (iterator-adaptor form is not analysed): ' + sh(norm(s.ret), 160))
+        return
     if len(loops) != 1:
         ctx.violation(R, LEN + ':shape', 'len() is not a single loop over the entries (%d loops)' % len(loops), w)
         return
